@@ -24,6 +24,35 @@ def place(tag, node):
 
 LEVELS = ["class", "tagdef", "tagdef>all", "class>tagdef", "elem>class"]
 
+# a child component may also look at its parent (values the parent hands down are not one of the five sources: whichever of the child's own
+# sources carries the winner, the rendered body must be the same).  Second family of cells "<tag>@parent": the parent carries these.
+PARENT_CTX = {
+    "mj-social-element": ("mj-social", {"inner-padding": "8px", "icon-size": "31px", "font-size": "15px", "color": "#123456", "border-radius": "5px",
+                                        "icon-padding": "3px", "text-padding": "5px 6px", "line-height": "21px", "icon-height": "33px"}),
+    "mj-navbar-link": ("mj-navbar", {"base-url": "https://base.example", "hamburger": "hamburger"}),
+    "mj-accordion-element": ("mj-accordion", {"icon-width": "21px", "icon-height": "23px", "icon-position": "left", "border": "1px solid #ff0000",
+                                              "font-family": "Courier", "padding": "7px", "icon-align": "top"}),
+    "mj-accordion-title": ("mj-accordion-element", {"font-family": "Courier", "icon-width": "21px", "icon-position": "left", "background-color": "#eeeeee"}),
+    "mj-accordion-text": ("mj-accordion-element", {"font-family": "Courier", "background-color": "#eeeeee"}),
+    "mj-carousel-image": ("mj-carousel", {"border-radius": "4px", "tb-border": "1px solid #0000ff", "tb-border-radius": "3px", "tb-width": "50px",
+                                          "thumbnails": "visible"}),
+    "mj-column": ("mj-section", {"padding": "10px 20px", "text-align": "left", "direction": "rtl"}),
+}
+
+
+def with_parent(d, tag):
+    """set the PARENT_CTX attributes on every parent of a <tag> element of document d"""
+    ptag, attrs = PARENT_CTX[tag]
+    def walk(n):
+        for c in n.get("children", []):
+            if c["tag"] == tag and n["tag"] == ptag:
+                for k, v in attrs.items():
+                    n["attrs"].setdefault(k, v)
+            if c["tag"] != "mj-head":
+                walk(c)
+    walk(d)
+    return d
+
 
 def body_of(html):
     i = html.find("<body")
@@ -117,16 +146,19 @@ def matrix(ck, hb, facts):
                 continue
             import random as _random
             v, w = pick_values(_random.Random("%s/%s" % (tag, attr)), tag, attr, typ)   # fixed per cell: the matrix does not depend on the seed
-            base = place(tag, (lambda n: (context(tag, attr, n), n)[1])(N(tag)))
-            jobs.append({"id": len(jobs), "src": docgen.to_mjml(base)})
-            meta.append((tag, attr, "base", v, w))
-            for level in LEVELS:
-                if tag in ("mj-attributes", "mj-all", "mj-head", "mj-title", "mj-preview", "mj-breakpoint"):
-                    continue
-                a, b = build(tag, attr, v, w, level)
-                for which, d in (("A", a), ("B", b)):
-                    jobs.append({"id": len(jobs), "src": docgen.to_mjml(d)})
-                    meta.append((tag, attr, level + ":" + which, v, w))
+            for ctx in ([False, True] if tag in PARENT_CTX else [False]):
+                wrap = (lambda d: with_parent(d, tag)) if ctx else (lambda d: d)
+                name = tag + "@parent" if ctx else tag
+                base = wrap(place(tag, (lambda n: (context(tag, attr, n), n)[1])(N(tag))))
+                jobs.append({"id": len(jobs), "src": docgen.to_mjml(base)})
+                meta.append((name, attr, "base", v, w))
+                for level in LEVELS:
+                    if tag in ("mj-attributes", "mj-all", "mj-head", "mj-title", "mj-preview", "mj-breakpoint"):
+                        continue
+                    a, b = build(tag, attr, v, w, level)
+                    for which, d in (("A", wrap(a)), ("B", wrap(b))):
+                        jobs.append({"id": len(jobs), "src": docgen.to_mjml(d)})
+                        meta.append((name, attr, level + ":" + which, v, w))
     res, dead = common.run_jobs(hb, "render", jobs)
     cells = {}
     for j, m in zip(jobs, meta):
@@ -188,6 +220,9 @@ def run(ck):
     ck.cov["matrix"] = counts
     ck.cov["exhaustive"] = True
     known = {(k["tag"], k["attr"]): k for k in vlib.known_findings("C09")}
+    for (t, a), k in list(known.items()):
+        if t in PARENT_CTX:
+            known.setdefault((t + "@parent", a), k)
     announced = set()
     pred = predicted_bad(facts)
     failing = []
@@ -195,8 +230,8 @@ def run(ck):
         if v != "bad":
             continue
         if (k[0], k[1]) in known:
-            if (k[0], k[1]) not in announced:
-                announced.add((k[0], k[1]))
+            if known[(k[0], k[1])]["id"] not in announced:
+                announced.add(known[(k[0], k[1])]["id"])
                 ck.known("%s: %s" % (known[(k[0], k[1])]["id"], known[(k[0], k[1])]["what"]))
             continue
         explained = k[2] in pred.get((k[0], k[1]), set())
